@@ -70,42 +70,56 @@ def instance(s, rng):
     f = lambda x: 0.5 * (x - c) @ Q @ (x - c) + (np.sum(np.exp(k * x)) if st['obj'] == 'nonquad' else 0.0)
     g = lambda x: Q @ (x - c) + (k * np.exp(k * x) if st['obj'] == 'nonquad' else 0.0)
     H = lambda x: Q + (np.diag(k * k * np.exp(k * x)) if st['obj'] == 'nonquad' else 0.0)
-    return dict(n=n, lbs=lbs, ubs=ubs, xs=xs, Q=Q, k=k, a=a, c=c, b=b, f=f, g=g, H=H, le_spelling=rng.random() < 0.5)
+    return dict(n=n, lbs=lbs, ubs=ubs, xs=xs, Q=Q, k=k, a=a, c=c, b=b, f=f, g=g, H=H, )
 
 
 def build_optyx(s, ins):
     import optyx
+    from optyx.core.matrices import quadratic_form
     st = s['st']
     n = ins['n']
-    order = list(range(n)) if st['order'] == 'natural' else list(reversed(range(n)))
-    vs = [None] * n
-    for i in order:      # creation order differs from name order when reversed
-        vs[i] = optyx.Variable('x%d' % i, lb=None if ins['lbs'][i] is None else float(ins['lbs'][i]),
-                               ub=None if ins['ubs'][i] is None else float(ins['ubs'][i]))
     Q, c, k = ins['Q'], ins['c'], ins['k']
-    f = 0.0
-    for i in range(n):
-        for j in range(n):
-            f = f + (0.5 * float(Q[i, j])) * ((vs[i] - float(c[i])) * (vs[j] - float(c[j])))
-    if st['obj'] == 'nonquad':
+    if st['spell'] == 'vector':
+        xv = optyx.VectorVariable('x', n)
+        vs = list(xv)
         for i in range(n):
-            f = f + optyx.exp(float(k[i]) * vs[i])
-    p = optyx.Problem()
-    if st['sense'] == 'min':
-        p.minimize(f)
+            vs[i].lb = None if ins['lbs'][i] is None else float(ins['lbs'][i])
+            vs[i].ub = None if ins['ubs'][i] is None else float(ins['ubs'][i])
+        f = 0.5 * quadratic_form(xv - np.asarray(c, dtype=float), Q)
+        if st['obj'] == 'nonquad':
+            f = f + optyx.exp(np.asarray(k, dtype=float) * xv).sum()
+        lhs = np.asarray(ins['a'], dtype=float) @ xv
     else:
-        p.maximize(-f)
-    if st['cons'] in ('eq', 'ineq_active', 'ineq_inactive'):
+        order = list(range(n)) if st['order'] == 'natural' else list(reversed(range(n)))
+        vs = [None] * n
+        for i in order:      # creation order differs from name order when reversed
+            vs[i] = optyx.Variable('x%d' % i, lb=None if ins['lbs'][i] is None else float(ins['lbs'][i]),
+                                   ub=None if ins['ubs'][i] is None else float(ins['ubs'][i]))
+        f = 0.0
+        for i in range(n):
+            for j in range(n):
+                f = f + (0.5 * float(Q[i, j])) * ((vs[i] - float(c[i])) * (vs[j] - float(c[j])))
+        if st['obj'] == 'nonquad':
+            for i in range(n):
+                f = f + optyx.exp(float(k[i]) * vs[i])
         lhs = 0.0
         for i in range(n):
             lhs = lhs + float(ins['a'][i]) * vs[i]
-        if st['cons'] == 'eq':
-            p.subject_to(lhs.eq(ins['b']))
-        elif ins['le_spelling']:
-            p.subject_to((-1.0 * lhs) <= -ins['b'])       # the same relation written with <=
-        else:
+    p = optyx.Problem()
+    if st['sense'] == 'min':
+        p.minimize(f if st['oform'] == 'plain' else 3.0 - (-f))
+    else:
+        p.maximize(-f if st['oform'] == 'plain' else 3.0 - f)
+    if st['cons'] == 'eq':
+        p.subject_to(lhs.eq(ins['b']))
+    elif st['cons'] in ('ineq_active', 'ineq_inactive'):
+        if st['cform'] == 'ge':
             p.subject_to(lhs >= ins['b'])
-    return p
+        elif st['cform'] == 'le_neg':
+            p.subject_to((-1.0 * lhs) <= -ins['b'])
+        else:
+            p.subject_to((ins['b'] - lhs) <= 0)
+    return p, [v.name for v in vs]
 
 
 def chunk(idx, items):
@@ -117,7 +131,7 @@ def chunk(idx, items):
         st, pred = s['st'], s['pred']
         rng = common.rng('C09/%s/%d' % (sorted(st.items()), seed))
         ins = instance(s, rng)
-        prob = build_optyx(s, ins)
+        prob, names = build_optyx(s, ins)
         cap = []
 
         def capture(fun, x0, **kw):
@@ -133,7 +147,7 @@ def chunk(idx, items):
                     sol = e
         finally:
             ss.minimize = real
-        site = 'Solve(%s;%s;%s;%s)' % (st['m'], st['obj'], st['cons'], st['sense'])
+        site = 'Solve(%s;%s;%s;%s;%s;%s;%s)' % (st['m'], st['obj'], st['cons'], st['sense'], st['spell'], st['cform'], st['oform'])
         text = {k: (v if not isinstance(v, list) else str(v)) for k, v in st.items()}
         part['evaluations'] += 1
         part['traces_validated_against_impl'] += 1
@@ -181,7 +195,7 @@ def chunk(idx, items):
                 continue
             wrong = None
             for x in (ins['xs'], ins['xs'] + 0.37, np.array(x0_want)):
-                if abs(float(kw['fun'](x)) - ins['f'](x)) > 1e-8 * (1 + abs(ins['f'](x))):
+                if abs(float(kw['fun'](x)) - (ins['f'](x) + pred['fun_offset'])) > 1e-8 * (1 + abs(ins['f'](x))):
                     wrong = 'objective handed to the solver is not f (sign or value)'
                 elif kw.get('jac') is not None and not np.allclose(np.asarray(kw['jac'](x), dtype=float).reshape(-1), ins['g'](x), rtol=1e-8, atol=1e-8):
                     wrong = 'gradient handed to the solver is not the gradient of f'
@@ -220,13 +234,12 @@ def chunk(idx, items):
         if sol.status.value != 'optimal':
             bad('direct SciPy converges but optyx reports %s' % sol.status.value, {'message': sol.message})
             continue
-        names = ['x%d' % i for i in range(n)]
         xo = np.array([sol.values[nm] for nm in names])
         gap_o = ins['f'](xo) - fstar
         if gap_o > max(10 * abs(gap_d), 1e-6 * (1 + abs(fstar))):
             bad('objective at the optyx point is further from the known optimum than the direct SciPy call', {'gap_optyx': float(gap_o), 'gap_direct': float(gap_d)})
             continue
-        want_obj = ins['f'](xo) if st['sense'] == 'min' else -ins['f'](xo)
+        want_obj = (ins['f'](xo) if st['sense'] == 'min' else -ins['f'](xo)) + (0 if st['oform'] == 'plain' else 3.0)
         if abs(sol.objective_value - want_obj) > 1e-7 * (1 + abs(want_obj)):
             bad('reported objective value is not the user objective at the returned point', {'got': sol.objective_value, 'expected': float(want_obj)})
         if len(part['samples']) < 1:
@@ -240,7 +253,7 @@ def run(report, tier):
         TABLE[skey(s['st'])] = s['pred']
     rng = common.rng('C09')
     if tier == 'quick':
-        sample = rng.sample(structs, 1200)
+        sample = rng.sample(structs, 2000)
         items = [(s, 0) for s in sample]
     else:
         items = [(s, k) for s in structs for k in range(2)]
